@@ -90,6 +90,7 @@ KIND_RE = {
     'enum': r'\benum\s+%s\b',
     'struct': r'\bstruct\s+%s\b',
     'const': r'\bconst\s+%s\b',
+    'macro': r'\bmacro_rules!\s+%s\b',
 }
 
 
